@@ -437,6 +437,18 @@ func (c *child) run(j job) {
 			return
 		}
 		c.cur.Pre = append(c.cur.Pre, res.status)
+		if res.pv != nil { // every step of a sequence is judged: a panic in an earlier step is the outcome
+			o := c.cur
+			o.URL = trunc(p.Path, 300)
+			o.Kind, o.Status = "panic", res.status
+			o.Msg = trunc(fmt.Sprintf("step %d of %d (%s %s): %v", len(c.cur.Pre), len(j.Pre)+1, p.Method, p.Path, res.pv), 200)
+			o.Site, o.Top = sites(parseFrames(string(res.stack)), true)
+			c.emit(o)
+			return
+		}
+		if p.SettleMS > 0 {
+			time.Sleep(time.Duration(p.SettleMS) * time.Millisecond)
+		}
 		if p.WantID {
 			id := "0"
 			if m := idRe.FindSubmatch(res.body); m != nil {
@@ -472,6 +484,9 @@ func (c *child) run(j job) {
 		o.Kind = "status"
 		if res.status >= 400 {
 			o.Msg = trunc(strings.TrimSpace(string(res.body)), 100)
+		}
+		if len(o.Pre) > 1 {
+			o.Msg = trunc(fmt.Sprintf("steps=%v ", o.Pre)+o.Msg, 160)
 		}
 	}
 	c.emit(o)
